@@ -488,9 +488,10 @@ func scenario(t target, dk deltaKind) e1lib.Scenario {
 			return expectNone()
 		case dk == dZero || dk == dBefore:
 			return expectNone()
-		case dk == dAt || t.reenter:
-			// both outcomes allowed (race at T; for the re-entered initial state the property
-			// statement can be read either way)
+		case dk == dAt:
+			// both outcomes allowed (the timer and the move race at T). The re-entered initial
+			// state is strict like every other state: the exemption of the property covers only
+			// the very first visit, before any message was exchanged.
 			if len(errs) == 0 {
 				return expectNone()
 			}
